@@ -20,12 +20,13 @@ BUILT = {
             "Recorded event traces (bursts, simultaneous events) are fed to Curve::from_trace and every window of every length of the trace is counted against the inferred curve. For derived objects (from_arrival_bound(_until), From impls, ArrivalCurvePrefix::from_arrival_bound_until) streams of the source's documented process are checked in every window against the derived object up to 6x the covered prefix, the derived object's dense stream against the source inside the prefix, and the two number_arrivals are compared along the scan (equal inside the covered prefix, derived >= source wherever the source is exact). delta_min_iter items are checked for duality with number_arrivals."),
     "C13": ("3.9", "deterministic simulation: cooperative query clients on one shared ExtrapolatingCurve under a seeded scheduler, checked operation by operation against a fresh eager curve and a closure model; event streams constrained by the original prefix",
             "Streams respecting only the original delta-min prefix are counted in every window against extrapolate / extrapolate_steps / extrapolate_with_bound results and ExtrapolatingCurve; prefix values must be unchanged and values may only tighten. 2-5 cooperative clients holding clones, jittered clones and RBFs that share one cache interleave number_arrivals / service_needed / lazy steps_iter operations (iterators stay open across other clients' mutations) under a seeded scheduler; every answer is compared with a fresh eagerly extrapolated Curve and an independent super-additive-closure model; any panic (RefCell) is a violation with the operation history as replay."),
+    "C14": ("3.10", "deterministic simulation: recorded job-cost histories summed over every run of consecutive jobs against the inferred / extrapolated cost curves; cooperative query clients on one shared wcet::ExtrapolatingCurve against a fresh object and a min-plus model",
+            "An execution-time source (frame patterns, variation, spikes, zero-cost jobs) records job-cost histories; wcet::Curve::from_trace(max_n) must dominate the cost of every run of n consecutive jobs anywhere in the history for every n up to its length, extrapolate(m) may not raise any value and must keep dominating. 2-5 handles sharing one wcet::ExtrapolatingCurve interleave cost_of_jobs / least_wcet / lazy job_cost_iter operations under a seeded scheduler and every answer is compared with a fresh object and an independent min-plus model. The pure invariants of Scalar / Multiframe / Curve / ExtrapolatingCurve ride along."),
 }
 
 NOT_YET = {
     "C04": "claimed in DESIGN.md section 3.4; check not built yet (in progress)",
     "C05": "claimed in DESIGN.md section 3.5; check not built yet (in progress)",
-    "C14": "claimed in DESIGN.md section 3.10; check not built yet (in progress)",
 }
 
 NA = {
